@@ -1088,6 +1088,29 @@ def gen_formulas(item_prefix="G7"):
     add("sincOut_needed_new", find_stmt(newb, r"let\s+needed_input_size\s*=\s*(.*?);", "G7.sincOut_needed_new"), ft[T], {}, "N", "SincFixedOut::new_with_interpolator: needed_input_size", {"resample_ratio": "F", "chunk_size": "N"})
     add("sincOut_buffer_len_new", find_stmt(newb, r"let\s+buffer_channel_length\s*=\s*(.*?);", "G7.sincOut_buffer_len_new"), ft[T], {}, "N", "SincFixedOut::new_with_interpolator: buffer_channel_length", {"max_resample_ratio_relative": "F", "needed_input_size": "N"})
     add("sincOut_range_test", find_stmt(impl_method_body(src_, T, "set_resample_ratio", "G7"), RANGE, "G7.sincOut_range_test"), ft[T], {}, "B", "SincFixedOut::set_resample_ratio: accepted range", {"new_ratio": "F"})
+    # ---- loop control of the four asynchronous process_into_buffer bodies, and the initial / reset read position
+    LOOPL = {"t_ratio": "F", "t_ratio_end": "F", "approximate_nbr_frames": "F", "idx": "F", "sinc_len": "N"}
+    consts_i = {"POLYNOMIAL_LEN_U": ("Fast.polyLen", "N"), "POLYNOMIAL_LEN_I": ("(Int.ofNat Fast.polyLen)", "I")}
+    for T, pre, src_, cs in (("FastFixedIn", "fastIn", fast, consts_i), ("SincFixedIn", "sincIn", sinc, {}),
+                             ("FastFixedOut", "fastOut", fast, consts_i), ("SincFixedOut", "sincOut", sinc, {})):
+        pb = impl_method_body(src_, T, "process_into_buffer", "G7")
+        add(f"{pre}_loop_t_ratio", find_stmt(pb, r"let\s+mut\s+t_ratio\s*=\s*(.*?);", f"G7.{pre}_loop_t_ratio"), ft[T], cs, "F", f"{T}::process_into_buffer: t_ratio", LOOPL)
+        add(f"{pre}_loop_t_ratio_end", find_stmt(pb, r"let\s+t_ratio_end\s*=\s*(.*?);", f"G7.{pre}_loop_t_ratio_end"), ft[T], cs, "F", f"{T}::process_into_buffer: t_ratio_end", LOOPL)
+        if pre.endswith("In"):
+            add(f"{pre}_loop_approx_frames", find_stmt(pb, r"let\s+approximate_nbr_frames\s*=\s*(.*?);", f"G7.{pre}_loop_approx_frames"), ft[T], cs, "F", f"{T}::process_into_buffer: approximate_nbr_frames", LOOPL)
+            add(f"{pre}_loop_end_idx", find_stmt(pb, r"let\s+end_idx\s*=\s*(.*?);", f"G7.{pre}_loop_end_idx"), ft[T], cs, "I", f"{T}::process_into_buffer: end_idx", LOOPL)
+        add(f"{pre}_loop_increment", find_stmt(pb, r"let\s+t_ratio_increment\s*=\s*(.*?);", f"G7.{pre}_loop_increment"), ft[T], cs, "F", f"{T}::process_into_buffer: t_ratio_increment", LOOPL)
+        add(f"{pre}_loop_last_index", find_stmt(pb, r"self\.last_index\s*=\s*(.*?);", f"G7.{pre}_loop_last_index"), ft[T], cs, "F", f"{T}::process_into_buffer: last_index carried to the next call", LOOPL)
+        rb = impl_method_body(src_, T, "reset", "G7")
+        add(f"{pre}_reset_last_index", find_stmt(rb, r"self\.last_index\s*=\s*(.*?);", f"G7.{pre}_reset_last_index"), ft[T], cs, "F", f"{T}::reset: last_index", LOOPL)
+        if T.startswith("Fast"):
+            nb = impl_method_body(src_, T, "new", "G7", trait=False)
+        else:
+            m2 = re.search(r"impl<T>\s+" + T + r"<T>", src_)
+            ib, _ = block_after(src_, m2.end(), "G7")
+            nb = fn_body(ib, "new_with_interpolator", "G7")[1].replace("interpolator.len()", "self.interpolator.len()")
+        add(f"{pre}_new_last_index", find_stmt(nb, r"\blast_index\s*:\s*(.*?),\s*\n", f"G7.{pre}_new_last_index"), ft[T], cs, "F", f"{T} constructor: last_index", LOOPL)
+    loop_sigs = {k: sigs.pop(k) for k in list(sigs) if "_loop_" in k or k.endswith("_last_index")}
     # ---- make_interpolator: length rounding, cutoff scaling, and the arguments every kernel constructor receives
     mk = strip_log_macros(fn_body(sinc, "make_interpolator", "G7.mkInterp")[1])
     loc = {"sinc_len": "N", "resample_ratio": "F", "f_cutoff": "S"}
@@ -1116,6 +1139,7 @@ def gen_formulas(item_prefix="G7"):
     out.append("")
     # ---- the three synchronous (FFT) resamplers: block sizing and the frame bookkeeping
     mk_sigs = {k: sigs.pop(k) for k in ("mkInterp_sinc_len", "mkInterp_f_cutoff")}
+    mk_sigs.update(loop_sigs)
     async_sigs = dict(sigs)
     sigs.clear()
     sigs.update(mk_sigs)
